@@ -57,8 +57,13 @@ PROGRAMS["dist-option-without-workers"] = {"test_something.py": PROGRAMS["four-s
                                            "pytest.ini": "[pytest]\naddopts = --dist=loadfile\n"}
 PROGRAMS["dist-option-n0"] = {"test_something.py": PROGRAMS["four-sites"]["test_something.py"],
                               "pytest.ini": "[pytest]\naddopts = --dist=loadscope -n 0\n"}
+# a test with missing values runs before tests whose asserted comparison fails (counters of one test must not reach the next one)
+PROGRAMS["missing-then-failing-bound"] = {"test_something.py": H + "def test_a():\n    assert 1 == snapshot()\n\n\ndef test_b():\n    assert 5 <= snapshot(3)\n    assert 2 in snapshot([1, 2])\n\n\n"
+                                          "def test_c():\n    assert 7 >= snapshot(9)\n    assert snapshot({'a': 1, 'b': 2})['a'] == 1\n"}
+PROGRAMS["missing-then-failing-eq"] = {"test_something.py": H + "def test_a():\n    s = snapshot()\n    assert s['k'] == 1\n\n\ndef test_b():\n    assert 5 == snapshot(3)\n    assert 2 in snapshot([1, 2])\n\n\n"
+                                       "def test_c():\n    assert 6 in snapshot([5])\n    assert 4 <= snapshot(9)\n"}
 NEEDS_XDIST = {"dist-option-without-workers", "dist-option-n0"}
-QUICK = ["dist-option-without-workers", "dist-option-n0", "defaults-in-pyproject", "two-files-later-category-only-first", "replace-all-members", "four-sites", "list-mixed", "sub-mixed", "hasrepr", "failing", "two-files", "in-mixed", "strings", "dataclass", "clean-file", "nested-snapshot", "never-compared"]
+QUICK = ["missing-then-failing-bound", "missing-then-failing-eq", "dist-option-without-workers", "dist-option-n0", "defaults-in-pyproject", "two-files-later-category-only-first", "replace-all-members", "four-sites", "list-mixed", "sub-mixed", "hasrepr", "failing", "two-files", "in-mixed", "strings", "dataclass", "clean-file", "nested-snapshot", "never-compared"]
 
 
 GEN_BATCH = 12
